@@ -55,8 +55,90 @@ def is_horizontal_fp(xs, ys, i):
     return (-c / b) != y1
 
 
+def is_near_horizontal_fp(xs, ys, i):
+    """a segment that is horizontal up to rounding (its two ordinates are within 64 ulps of each other, and differ): the
+    code's inclusion test on y is then decided by the rounding of `yb = -c / b` — the situation of D17, one ulp away"""
+    x1, y1, x2, y2 = float(xs[i]), float(ys[i]), float(xs[i + 1]), float(ys[i + 1])
+    if y1 == y2 or x1 == x2:
+        return False
+    return abs(y2 - y1) <= 64 * math.ulp(max(abs(y1), abs(y2)))
+
+
+def is_near_vertical_fp(xs, ys, i, tol):
+    """a segment so close to vertical that the base point (0, yb = -c / b) through which the code constructs the foot has an
+    ordinate whose rounding unit exceeds the oracle's tolerance: the ordinate of the foot is then lost in `(y - yb)` and
+    `yb + ...` (decidable on the input floats; evaluated with the code's own operations). Continuous counterpart of D16."""
+    x1, y1, x2, y2 = float(xs[i]), float(ys[i]), float(xs[i + 1]), float(ys[i + 1])
+    if x1 == x2:
+        return False
+    a = y2 - y1
+    b = -(x2 - x1)
+    c = -(a * x1 + b * y1)
+    yb = -c / b
+    return yb != yb or math.isinf(yb) or 4 * math.ulp(abs(yb)) > tol
+
+
+def line_d2(px, py, x1, y1, x2, y2):
+    """exact squared distance from (px,py) to the LINE through (x1,y1), (x2,y2)"""
+    ux, uy = x2 - x1, y2 - y1
+    uu = ux * ux + uy * uy
+    cr = (px - x1) * uy - (py - y1) * ux
+    return cr * cr / uu
+
+
+def check_fragile(X, Y, q, d, xp, yp, i, frag, reduced):
+    """The widest behaviour the code can have when the segments `frag` are numerically vertical: on such a segment it returns
+    either the distance to its LINE with a foot whose ordinate is rounding noise, or its nearer end point. None if
+    (d, (xp,yp), i) is explained that way (all other segments behaving correctly, those in `reduced` as in D16 / D17)."""
+    for v in (d, xp, yp):
+        if not isinstance(v, (int, float)) or isinstance(v, bool) or v != v or math.isinf(v):
+            return "non-finite"
+    n = len(X)
+    if isinstance(i, bool) or not isinstance(i, int) or not (0 <= i <= n - 2):
+        return "index"
+    segs = segments(X, Y)
+    qx, qy = fr(q[0]), fr(q[1])
+    tol = TOL * max(scale_of(X, Y, q), abs(d))
+    lo, hi = [], []
+    for j, sg in enumerate(segs):
+        if degenerate(sg):
+            continue
+        if j in frag:
+            lo.append(line_d2(qx, qy, *sg)); hi.append(end_d2(qx, qy, *sg))
+        elif j in reduced:
+            lo.append(end_d2(qx, qy, *sg)); hi.append(end_d2(qx, qy, *sg))
+        else:
+            lo.append(seg_d2(qx, qy, *sg)); hi.append(seg_d2(qx, qy, *sg))
+    if not lo or not (math.sqrt(min(lo)) - tol <= d <= math.sqrt(min(hi)) + tol):
+        return "distance outside the explained range"
+    dq = math.sqrt((qx - fr(xp)) ** 2 + (qy - fr(yp)) ** 2)
+    if i in frag:
+        at_end = min((fr(xp) - segs[i][0]) ** 2 + (fr(yp) - segs[i][1]) ** 2, (fr(xp) - segs[i][2]) ** 2 + (fr(yp) - segs[i][3]) ** 2) <= F(tol) ** 2
+        if at_end and abs(dq - d) <= tol:
+            return None
+        if abs(math.sqrt(line_d2(qx, qy, *segs[i])) - d) <= tol:
+            return None
+        return "fragile segment: neither an end point nor the line distance"
+    if seg_d2(fr(xp), fr(yp), *segs[i]) > F(tol) ** 2 or abs(dq - d) > tol:
+        return "point / distance inconsistent on a well-conditioned segment"
+    return None
+
+
 def scale_of(X, Y, q):
     return max([1.0] + [abs(float(v)) for v in list(X) + list(Y) + list(q)])
+
+
+def zf(v):
+    """altitude of a case: None stands for NaN (cases stay strict JSON)"""
+    return float("nan") if v is None else float(v)
+
+
+def flat(zs):
+    return all(v is not None and float(v) == 0.0 for v in zs)
+
+
+NP_CONT = ("npf", "npi")          # containers whose elements are numpy scalars (`-c / b` never raises)
+INT_CONT = ("npi", "int")         # containers of integers (lattice stream only)
 
 
 def check_answer(X, Y, q, d, xp, yp, i, reduced=()):
@@ -100,18 +182,45 @@ class P(Prop):
         (M, "TV.C20.projOnTrack_spec", "__projOnTrack / mapOnTrack(coord) = proj_polyligne reordered as (point, distance, index)"),
         (M, "TV.C20.mapOnTrack_rows", "mapOnTrack(track): one row per query, in order, row j = projection of query j"),
         (M, "TV.C20.proj_segment_min_fails_on_vertical", "refutation of the full statement: segment (0,0)-(0,8), query (3,4), over every ordered field"),
+        (M, "TV.C20.proj_segment_nearest_partial", "non-vertical segment (oblique / horizontal, any direction): returns a point ON the segment, d = distance to it, d <= distance to every point of the segment (the three clauses together)"),
+        (M, "TV.C20.proj_segment_horizontal", "horizontal segment, exact arithmetic: returned ordinate = the segment's; query abscissa between the ends -> the foot (x, y1) at distance |y - y1|; minimal in every case"),
+        (M, "TV.C20.proj_polyline_vertices", "skipped segments being true zero-length ones: d <= distance to EVERY vertex of the polyline (those of skipped segments included)"),
+        (M, "TV.C20.proj_polyline_nearest_partial", "polyline with no kept vertical segment, skipped ones zero-length, one kept: returns (d, p, i) with p on segment i, d = |q - p|, d <= distance to every point of every segment (skipped included)"),
+        (M, "TV.C20.projSegmentG_lists", "proj_segment on a list / tuple of Python numbers is the kernel projSegment of the theorems"),
+        (M, "TV.C20.projSegmentG_numpy_nonvertical", "proj_segment on numpy scalars (-c / b never raises) equals the kernel on every non-vertical segment"),
+        (M, "TV.C20.projPolyligneXY_spec", "proj_polyligne(Xp, Yp, ..) with len(Yp) >= len(Xp) is the kernel on zip(Xp, Yp) (lists; numpy arrays when no kept segment is vertical)"),
+        (M, "TV.C20.projPolyligneXY_short", "len(Yp) < len(Xp): proj_polyligne never returns a value (IndexError / earlier error)"),
+        (M, "TV.C20.projOnTrack3_planimetric", "__projOnTrack on 3D positions is planimetric: (ENUCoords(px, py, 0), d, i) with (d, px, py, i) = proj_polyligne on the (X, Y) of track and query; no altitude is read"),
+        (M, "TV.C20.mapOnTrack3_coord", "mapOnTrack(coord, track): one (ENUCoords(px, py, 0), d, i), the planimetric projection of the coordinate"),
+        (M, "TV.C20.mapOnTrack3_track", "mapOnTrack(track, track): one row per query in order, row j = (ENUCoords(px, py, 0), d, i) the planimetric projection of query j"),
     ]
-    partial = ["proj_segment_min_partial / proj_polyline_min_partial: minimality proved for non-vertical segments only; for vertical segments the statement is "
-               "false of the code (D16, proj_segment_min_fails_on_vertical); points of skipped (near-)zero-length segments are covered only through the end "
-               "points of their non-skipped neighbours; IEEE rounding (D17) is outside the theorems and sampled by the transfer check"]
-    open_statements = ["proj_segment_min (all orientations): FALSE of the current code, kept as a comment in Props/C20.lean with its refutation"]
-    modelled = ("util/geometry.py cartesienne, projection_droite (b == 0 special case as coded), proj_segment, proj_polyligne; "
-                "algo/mapping.py __projOnTrack, mapOnTrack (coordinate and track variants); Float instance, bit patterns")
-    rule = ("exhaustive lattice scopes, then random polylines of 2..5 vertices built from oblique / horizontal / vertical / zero-length steps "
-            "on an integer lattice (exact in double arithmetic) and on two-decimal coordinates (transfer stream), queries beside a segment, "
-            "beyond its ends, on it, at a vertex, far away; entry points proj_segment, proj_polyligne, mapOnTrack(coord), mapOnTrack(track). "
+    partial = ["proj_segment_min_partial / proj_segment_nearest_partial / proj_polyline_min_partial / proj_polyline_nearest_partial: the property is proved at full "
+               "strength (point on the carrying segment, index, d = |q - p|, d minimal over every point of every segment, skipped zero-length segments included) "
+               "for every NON-vertical orientation; for vertical segments the statement is false of the code (D16, pinned by test_geometry.py::testProjSegment; "
+               "proj_segment_min_fails_on_vertical, vertical_as_coded): there only the end points are covered. A skipped segment of non-zero length < 1e-16 is "
+               "covered up to its length. Exact arithmetic: IEEE rounding (D17, horizontal segments) is outside the theorems and sampled by the transfer check; "
+               "the numpy form on a vertical segment (inf / nan instead of ZeroDivisionError) is IEEE-only and checked by correspondence"]
+    open_statements = ["proj_segment_min (all orientations, vertical included): FALSE of the current code (D16), kept as a comment in Props/C20.lean with its refutation"]
+    modelled = ("util/geometry.py cartesienne, projection_droite (b == 0 special case as coded), proj_segment (segment given as list / tuple / numpy array: "
+                "-c / b raises or not), proj_polyligne on its two sequences (lists / tuples / numpy arrays, range(len(Xp) - 1), IndexError on a shorter Yp, "
+                "extra ordinates ignored, near-zero-length segments skipped, strict < minimum, UnboundLocalError); core/track.py Track.getX() / getY() on 3D "
+                "positions (ENU / Geo / ECEF: only getX, getY are read); algo/mapping.py __projOnTrack (ENUCoords(xproj, yproj, 0), altitudes never read), "
+                "mapOnTrack with its dispatch on the first argument (coordinate / track of queries, dist and edge columns); Float instance, bit patterns")
+    rule = ("exhaustive lattice scopes, then random polylines of 2..5 (one in nine: 6..30, one in eighty: 31..120) vertices built from oblique / horizontal / "
+            "vertical / zero-length / collinear (forward and folding back) / back-to-an-earlier-vertex steps in every direction. Streams: integer lattice (exact in "
+            "double arithmetic), two-decimal coordinates, longitudes / latitudes with 5 decimals around (2.35, 48.85), projected coordinates around "
+            "(650000, 6860000), and 'nearaxis' (two-decimal, vertical / horizontal steps off by 0..1e6 ulps, very short segments 1e-17..1e-3 around the 1e-16 skip "
+            "threshold). Queries beside a segment, beyond its ends, on it, at a vertex, far away, anywhere. Entry points proj_segment, proj_polyligne, "
+            "__projOnTrack, mapOnTrack(coord), mapOnTrack(track); argument forms list / tuple / numpy float array / numpy int array / list of ints for the "
+            "polyline, float / numpy scalar / int for the query, Yp longer or shorter than Xp; positions ENUCoords / GeoCoords / ECEFCoords with altitudes flat, "
+            "equal on track and query, only on the track, only on the query, varying, NaN (the projection is planimetric: every clause is checked in the (X, Y) "
+            "plane); sequences on ONE track object: project, modify in place (vertex moved, whole track shifted, vertex appended, object replaced), project "
+            "again — each projection checked against the geometry of that moment. Track objects are never recycled within a process (no identity reuse). "
             "non-trivial = the polyline has at least one segment of non-zero length. Outside the property's domain (an error is accepted there): "
-            "proj_segment on a zero-length segment, a polyline all of whose vertices coincide.")
+            "proj_segment on a zero-length segment, a polyline all of whose vertices coincide (up to the 1e-16 under which proj_polyligne skips a segment), "
+            "a Yp shorter than Xp. Failing answers are excused only inside the listed classes: vertical-segment (D16, also its numpy form inf/nan and segments "
+            "that are vertical up to rounding, where the foot built through (0, -c / b) loses its ordinate) and horizontal-segment-fp (D17, also segments "
+            "horizontal up to 64 ulps).")
     trusted = ["math.sqrt / Float.sqrt correctly rounded; the sentinel 1e400 (+inf) modelled as 'no current minimum'"]
 
     def setup(self):
@@ -119,7 +228,12 @@ class P(Prop):
         from tracklib.algo import mapping
         from tracklib.core import ENUCoords, Obs
         from tracklib import Track
-        self.g, self.m, self.E, self.Obs, self.Track = geometry, mapping, ENUCoords, Obs, Track
+        from tracklib.core import GeoCoords, ECEFCoords
+        import numpy
+        self.g, self.m, self.E, self.Obs, self.Track, self.np = geometry, mapping, ENUCoords, Obs, Track, numpy
+        self.C = {"ENU": ENUCoords, "GEO": GeoCoords, "ECEF": ECEFCoords}
+        self.projOnTrack = getattr(mapping, "__projOnTrack")
+        self._live, self._pinned = [], []
 
     # ------------------------------------------------------------------ generators
     def exhaustive_scopes(self, tier):
@@ -150,31 +264,71 @@ class P(Prop):
                         for y in qr:
                             out.append({"kind": "poly", "X": [float(a[0]), float(b[0]), float(c[0])],
                                         "Y": [float(a[1]), float(b[1]), float(c[1])], "q": [float(x), float(y)]})
-        n = 60000 if big else 7000
+        n = 60000 if big else 12000
+        streams = ["lattice"] * 10 + ["decimal"] * 6 + ["geo", "geo", "lambert", "nearaxis"]
         for k in range(n):
-            stream = "lattice" if k % 5 < 3 else "decimal"
-            out.append(self.random_case(rng, stream))
+            out.append(self.random_case(rng, streams[k % len(streams)]))
         return out
 
-    def rand_coord(self, rng, stream):
-        if stream == "lattice":
-            return float(rng.randint(-3, 8))
-        return round(rng.randint(-300, 1500) / 100.0, 2)
+    # streams: lattice = integer lattice (exact in double arithmetic, the correspondence stream proper); decimal = two-decimal
+    # coordinates; geo = longitudes / latitudes around (2.35, 48.85) with 5 decimals (segments of 1e-5..1e-2 degree);
+    # lambert = projected coordinates around (650000, 6860000) with 2 decimals (large offsets); nearaxis = decimal, with the
+    # vertical / horizontal steps off by a few ulps (segments that are axis-parallel up to rounding: translated data)
+    DIGITS = {"decimal": 2, "nearaxis": 2, "geo": 5, "lambert": 2}
 
-    def step(self, rng, stream, p):
-        """next vertex after p: oblique, horizontal, vertical or zero-length step"""
-        kind = rng.choices(["oblique", "horizontal", "vertical", "zero"], weights=[5, 3, 2, 1])[0]
+    def rand_xy(self, rng, stream):
+        if stream == "lattice":
+            return (float(rng.randint(-3, 8)), float(rng.randint(-3, 8)))
+        if stream == "geo":
+            return (round(2.35 + rng.randint(0, 1000) / 1e5, 5), round(48.85 + rng.randint(0, 1000) / 1e5, 5))
+        if stream == "lambert":
+            return (round(650000.0 + rng.randint(0, 50000) / 100.0, 2), round(6860000.0 + rng.randint(0, 50000) / 100.0, 2))
+        return (round(rng.randint(-300, 1500) / 100.0, 2), round(rng.randint(-300, 1500) / 100.0, 2))
+
+    def rand_offset(self, rng, stream):
+        if stream == "lattice":
+            return (float(rng.randint(-3, 8)), float(rng.randint(-3, 8)))
+        if stream == "geo":
+            return (rng.randint(-500, 500) / 1e5, rng.randint(-500, 500) / 1e5)
+        return (round(rng.randint(-300, 1500) / 100.0, 2), round(rng.randint(-300, 1500) / 100.0, 2))
+
+    def rnd(self, v, stream):
+        return v if stream == "lattice" else round(v, self.DIGITS[stream])
+
+    def ulps(self, rng, v, stream):
+        """v, moved by a few ulps on the nearaxis stream"""
+        if stream != "nearaxis":
+            return v
+        k = rng.choice([0, 1, 2, 3, 8, 100, 10 ** 4, 10 ** 6]) * rng.choice([-1, 1])
+        return v + k * math.ulp(v)
+
+    def step(self, rng, stream, pts):
+        """next vertex after pts[-1]: oblique, horizontal, vertical, zero-length, collinear with the previous
+        segment (forward: an extension; backward: folding back over it), or back to an earlier vertex"""
+        p = pts[-1]
+        kind = rng.choices(["oblique", "horizontal", "vertical", "zero", "collinear", "back"], weights=[10, 6, 4, 2, 2, 1])[0]
+        if stream == "nearaxis" and rng.random() < 0.2:
+            # a very short segment (below, at and above the 1e-16 threshold of proj_polyligne, up to 1e-3), any direction
+            dl = rng.choice([1e-17, 1e-16, 3e-16, 1e-14, 1e-12, 1e-9, 1e-6, 1e-3])
+            return (p[0] + rng.choice([-2, -1, 0, 1, 2]) * dl, p[1] + rng.choice([-2, -1, 0, 1, 2]) * dl)
+        if kind == "collinear" and len(pts) >= 2 and pts[-2] != p:
+            o = pts[-2]
+            k = rng.choice([1.0, 2.0, 0.5, -0.5, -1.0, -2.0])
+            nx, ny = p[0] + k * (p[0] - o[0]), p[1] + k * (p[1] - o[1])
+            return (self.rnd(nx, stream), self.rnd(ny, stream))
+        if kind == "back" and len(pts) >= 2:
+            return rng.choice(pts[:-1])
         for _ in range(20):
-            nx, ny = self.rand_coord(rng, stream), self.rand_coord(rng, stream)
-            if kind == "oblique" and nx != p[0] and ny != p[1]:
-                return (nx, ny)
+            nx, ny = self.rand_xy(rng, stream)
             if kind == "horizontal" and nx != p[0]:
-                return (nx, p[1])
+                return (nx, self.ulps(rng, p[1], stream))
             if kind == "vertical" and ny != p[1]:
-                return (p[0], ny)
+                return (self.ulps(rng, p[0], stream), ny)
             if kind == "zero":
                 return (p[0], p[1])
-        return (p[0] + 1.0, p[1] + 2.0)
+            if kind in ("oblique", "collinear", "back") and nx != p[0] and ny != p[1]:
+                return (nx, ny)
+        return (p[0] + 1.0, p[1] + 2.0) if stream == "lattice" else (self.rnd(p[0] + 0.001, stream), self.rnd(p[1] + 0.002, stream))
 
     def rand_query(self, rng, stream, pts):
         i = rng.randrange(len(pts) - 1)
@@ -194,111 +348,335 @@ class P(Prop):
         else:
             t = rng.random()
             k = rng.choice([-1, 1]) * rng.choice([0.01, 0.25, 1.0, 3.17])
+            nd = self.DIGITS[stream]
             if how == "beside":
-                return [round(x1 + t * ux - k * uy, 2), round(y1 + t * uy + k * ux, 2)]
+                return [round(x1 + t * ux - k * uy, nd), round(y1 + t * uy + k * ux, nd)]
             if how == "beyond":
                 t = rng.choice([-1.3, -0.2, 1.1, 2.6])
-                return [round(x1 + t * ux - k * uy * rng.choice([0, 1]), 2), round(y1 + t * uy + k * ux * rng.choice([0, 1]), 2)]
+                return [round(x1 + t * ux - k * uy * rng.choice([0, 1]), nd), round(y1 + t * uy + k * ux * rng.choice([0, 1]), nd)]
             if how == "on":
                 if uy == 0:
-                    return [round(x1 + t * ux, 2), y1]
+                    return [round(x1 + t * ux, nd), y1]
                 if ux == 0:
-                    return [x1, round(y1 + t * uy, 2)]
+                    return [x1, round(y1 + t * uy, nd)]
                 return [x1 + 0.5 * ux, y1 + 0.5 * uy]
         if how == "vertex":
             v = rng.choice(pts)
             return [v[0], v[1]]
         if how == "far":
-            s = rng.choice([1e3, 1e5, 1e6])
+            s = rng.choice([1e3, 1e5, 1e6]) * (1e-4 if stream == "geo" else 1.0)
             return [float(rng.randint(-3, 3)) * s + x1, float(rng.randint(-3, 3)) * s + y1]
-        return [self.rand_coord(rng, stream), self.rand_coord(rng, stream)]
+        return list(self.rand_xy(rng, stream))
+
+    ALTS = [-12.5, 3.0, 35.0, 250.25, 1e4]
+
+    def rand_alt(self, rng, n, nq):
+        """(pattern, track altitudes, query altitudes); None = NaN"""
+        pat = rng.choices(["flat", "same", "track", "query", "vary", "nan"], weights=[3, 3, 1, 2, 3, 1])[0]
+        A = self.ALTS
+        if pat == "flat":
+            return pat, [0.0] * n, [0.0] * nq
+        if pat == "same":
+            h = rng.choice(A)
+            return pat, [h] * n, [h] * nq
+        if pat == "track":
+            return pat, [rng.choice(A) for _ in range(n)], [0.0] * nq
+        if pat == "query":
+            return pat, [0.0] * n, [rng.choice(A) for _ in range(nq)]
+        if pat == "vary":
+            return pat, [rng.choice(A) for _ in range(n)], [rng.choice(A) for _ in range(nq)]
+        Z = [None if rng.random() < 0.4 else rng.choice(A + [0.0]) for _ in range(n)]
+        QZ = [None if rng.random() < 0.5 else rng.choice(A + [0.0]) for _ in range(nq)]
+        if all(v is not None for v in Z + QZ):
+            QZ[0] = None
+        return pat, Z, QZ
+
+    def rand_points(self, rng, stream, n):
+        pts = [self.rand_xy(rng, stream)]
+        while len(pts) < n:
+            pts.append(self.step(rng, stream, pts))
+        if all(p == pts[0] for p in pts) and rng.random() < 0.9:
+            pts[-1] = (self.rnd(pts[0][0] + 2.0e-3, stream), self.rnd(pts[0][1] + 1.0e-3, stream)) if stream != "lattice" else (pts[0][0] + 2.0, pts[0][1] + 1.0)   # all-degenerate polylines kept rare (outside the domain)
+        return pts
 
     def random_case(self, rng, stream):
-        kind = rng.choices(["seg", "poly", "map", "mapt"], weights=[3, 4, 2, 1])[0]
-        n = 2 if kind == "seg" else rng.randint(2, 5)
-        pts = [(self.rand_coord(rng, stream), self.rand_coord(rng, stream))]
-        while len(pts) < n:
-            pts.append(self.step(rng, stream, pts[-1]))
-        if all(p == pts[0] for p in pts) and rng.random() < 0.9:
-            pts[-1] = (pts[0][0] + 2.0, pts[0][1] + 1.0)   # all-degenerate polylines kept rare (outside the domain)
+        kind = rng.choices(["seg", "poly", "polyxy", "map", "proj", "mapt", "seq"], weights=[30, 40, 4, 20, 8, 10, 8])[0]
+        r = rng.random()
+        n = 2 if kind == "seg" else (rng.randint(31, 120) if r < 0.0125 else rng.randint(6, 30) if r < 0.125 else rng.randint(2, 5))
+        pts = self.rand_points(rng, stream, n)
         X, Y = [p[0] for p in pts], [p[1] for p in pts]
-        if kind == "seg":
-            return {"kind": "seg", "stream": stream, "s": [X[0], Y[0], X[1], Y[1]], "q": self.rand_query(rng, stream, pts)}
+        if kind in ("seg", "poly", "polyxy"):
+            conts = ["list", "tuple", "npf"] + (["npi", "int"] if stream == "lattice" else [])
+            cont = rng.choices(conts, weights=[4, 1, 3, 1, 1][:len(conts)])[0]
+            q = self.rand_query(rng, stream, pts)
+            if cont in INT_CONT and not all(float(v).is_integer() for v in X + Y):
+                cont = "npf"        # half-integer vertices (collinear steps): not representable in an integer container
+            qform = rng.choices(["float", "np", "int"], weights=[6, 2, 1])[0]
+            if qform == "int" and not all(float(v).is_integer() for v in q):
+                qform = "float"
+            if kind == "seg":
+                return {"kind": "seg", "stream": stream, "cont": cont, "qform": qform, "s": [X[0], Y[0], X[1], Y[1]], "q": q}
+            if kind == "polyxy":
+                if rng.random() < 0.5:
+                    Y = Y + [self.rand_xy(rng, stream)[1] for _ in range(rng.randint(1, 2))]
+                else:
+                    Y = Y[:rng.randint(0, len(Y) - 1)]
+            return {"kind": kind, "stream": stream, "cont": cont, "qform": qform, "X": X, "Y": Y, "q": q}
+        coords = rng.choices(["ENU", "GEO", "ECEF"], weights=[1, 8, 0] if stream == "geo" else [6, 2, 1])[0]
+        if kind == "seq":
+            return self.random_seq(rng, stream, pts, coords)
+        nq = rng.randint(1, 4) if kind == "mapt" else 1
+        alt, Z, QZ = self.rand_alt(rng, n, nq)
+        base = {"kind": kind, "stream": stream, "coords": coords, "alt": alt, "X": X, "Y": Y, "Z": Z}
         if kind == "mapt":
-            return {"kind": "mapt", "stream": stream, "X": X, "Y": Y,
-                    "Q": [self.rand_query(rng, stream, pts) for _ in range(rng.randint(1, 4))]}
-        return {"kind": kind, "stream": stream, "X": X, "Y": Y, "q": self.rand_query(rng, stream, pts)}
+            return dict(base, Q=[self.rand_query(rng, stream, pts) for _ in range(nq)], QZ=QZ)
+        return dict(base, q=self.rand_query(rng, stream, pts), qz=QZ[0])
+
+    def random_seq(self, rng, stream, pts, coords):
+        """operations on ONE track object: ["q", x, y, z] project a coordinate; ["qt", [[x, y, z], ..]] project a track of
+        queries; ["set", i, x, y, z] move vertex i in place; ["shift", tx, ty] shift every vertex in place;
+        ["app", x, y, z] append a vertex; ["new"] replace the object by a fresh one with the same geometry"""
+        pts = list(pts)
+        alt, Z, _ = self.rand_alt(rng, len(pts), 1)
+        case = {"kind": "seq", "stream": stream, "coords": coords, "alt": alt,
+                "X": [p[0] for p in pts], "Y": [p[1] for p in pts], "Z": list(Z), "ops": []}
+        alts = sorted({v for v in Z if v is not None} | {0.0})
+
+        def query():
+            q = self.rand_query(rng, stream, pts)
+            return [q[0], q[1], rng.choice(alts + ([None] if alt == "nan" else []))]
+        ops = case["ops"]
+        ops.append(["q"] + query())
+        for _ in range(rng.randint(1, 5)):
+            o = rng.choices(["q", "qt", "set", "shift", "app", "new"], weights=[5, 1, 3, 3, 1, 1])[0]
+            if o == "q":
+                ops.append(["q"] + query())
+            elif o == "qt":
+                ops.append(["qt", [query() for _ in range(rng.randint(1, 3))]])
+            elif o == "set":
+                i = rng.randrange(len(pts))
+                nv = self.step(rng, stream, pts[:i] if i > 0 else [pts[0]])
+                pts[i] = nv
+                ops.append(["set", i, nv[0], nv[1], rng.choice(alts)])
+            elif o == "shift":
+                tx, ty = self.rand_offset(rng, stream)
+                pts = [(p[0] + tx, p[1] + ty) for p in pts]
+                ops.append(["shift", tx, ty])
+            elif o == "app":
+                nv = self.step(rng, stream, pts)
+                pts.append(nv)
+                ops.append(["app", nv[0], nv[1], rng.choice(alts)])
+            else:
+                ops.append(["new"])
+        ops.append(["q"] + query())
+        return case
+
+    # ------------------------------------------------------------------ geometry of a case
+    def seq_steps(self, case):
+        """[(X, Y, Z, [x, y, z])]: for every query of a "seq" case, in order, the geometry of the track at that
+        moment — computed here from the operations, independently of the track object"""
+        X, Y, Z = list(case["X"]), list(case["Y"]), list(case["Z"])
+        out = []
+        for op in case["ops"]:
+            if op[0] == "q":
+                out.append((list(X), list(Y), list(Z), list(op[1:4])))
+            elif op[0] == "qt":
+                for q in op[1]:
+                    out.append((list(X), list(Y), list(Z), list(q)))
+            elif op[0] == "set":
+                X[op[1]], Y[op[1]], Z[op[1]] = op[2], op[3], op[4]
+            elif op[0] == "shift":
+                X = [v + op[1] for v in X]
+                Y = [v + op[2] for v in Y]
+            elif op[0] == "app":
+                X.append(op[1]); Y.append(op[2]); Z.append(op[3])
+        return out
 
     def poly_of(self, case):
         if case["kind"] == "seg":
             s = case["s"]
             return [s[0], s[2]], [s[1], s[3]]
-        return case["X"], case["Y"]
+        n = min(len(case["X"]), len(case["Y"]))      # extra ordinates are ignored (polyxy)
+        return case["X"][:n], case["Y"][:n]
+
+    def queries_of(self, case):
+        """[(X, Y, [qx, qy], flat?)] — one entry per projected query, with the polyline it is projected on"""
+        k = case["kind"]
+        if k == "seq":
+            return [(X, Y, q[:2], flat(Z) and flat([q[2]])) for (X, Y, Z, q) in self.seq_steps(case)]
+        X, Y = self.poly_of(case)
+        if k == "mapt":
+            QZ = case.get("QZ", [0.0] * len(case["Q"]))
+            return [(X, Y, q, flat(case.get("Z", [0.0])) and flat([QZ[j]])) for j, q in enumerate(case["Q"])]
+        return [(X, Y, case["q"], flat(case.get("Z", [0.0])) and flat([case.get("qz", 0.0)]))]
 
     def describe(self, case):
         X, Y = self.poly_of(case)
         segs = segments(X, Y)
-        t = {"kind": case["kind"], "stream": case.get("stream", "enum"), "vertices": len(X)}
+        t = {"kind": case["kind"], "stream": case.get("stream", "enum"), "vertices": len(X) if len(X) <= 5 else "6-30" if len(X) <= 30 else "31-120"}
         t["orient"] = "".join(sorted({("z" if degenerate(s) else "v" if s[0] == s[2] else "h" if s[1] == s[3] else "o") for s in segs}))
+        if case["kind"] in ("seg", "poly", "polyxy"):
+            t["container"] = case.get("cont", "list")
+            t["query"] = case.get("qform", "float")
+        else:
+            t["coords"] = case.get("coords", "ENU")
+            t["altitudes"] = case.get("alt", "flat")
         return t
 
     def nontrivial(self, case):
-        X, Y = self.poly_of(case)
-        return any(not degenerate(s) for s in segments(X, Y))
+        return self.in_domain(case)
 
     # ------------------------------------------------------------------ implementation
-    def track(self, X, Y):
-        return self.Track([self.Obs(self.E(x, y, 0)) for x, y in zip(X, Y)])
+    def container(self, L, cont):
+        if cont in INT_CONT and not all(float(v).is_integer() for v in L):
+            cont = "npf" if cont == "npi" else "list"       # not representable as integers: same argument form, floats
+        if cont == "tuple":
+            return tuple(L)
+        if cont == "npf":
+            return self.np.array(L, dtype=float)
+        if cont == "npi":
+            return self.np.array([int(v) for v in L], dtype=self.np.int64)
+        if cont == "int":
+            return [int(v) for v in L]
+        return list(L)
+
+    def track(self, X, Y, Z=None, coords="ENU"):
+        """A Track. Every Track object made here stays referenced until the end of the process (emptied once its case is
+        over): CPython then never gives a later track the `id` of an earlier one, so that what a case observes depends on
+        that case alone (state keyed by object identity is exercised by the "seq" cases, deterministically)."""
+        C = self.C[coords]
+        Z = [0.0] * len(X) if Z is None else Z
+        T = self.Track([self.Obs(C(x, y, zf(z))) for x, y, z in zip(X, Y, Z)])
+        self._live.append(T)
+        return T
+
+    def release(self):
+        for T in self._live:
+            T.setObsList([])
+        self._pinned += self._live
+        self._live = []
+
+    def row(self, c, d, i):
+        return [float(d), float(c.getX()), float(c.getY()), int(i), float(c.getZ())]
 
     def impl(self, case):
+        self.release()
         k = case["kind"]
+        cont = case.get("cont", "list")
+        if k in ("seg", "poly", "polyxy"):
+            qf = case.get("qform", "float")      # the query as Python floats, numpy scalars or Python ints
+            qx, qy = [(self.np.float64(v) if qf == "np" else int(v) if (qf == "int" and float(v).is_integer()) else float(v)) for v in case["q"]]
         if k == "seg":
-            d, xp, yp = self.g.proj_segment(list(case["s"]), case["q"][0], case["q"][1])
+            d, xp, yp = self.g.proj_segment(self.container(case["s"], cont), qx, qy)
             return {"d": float(d), "p": [float(xp), float(yp)]}
-        if k == "poly":
-            d, xp, yp, i = self.g.proj_polyligne(list(case["X"]), list(case["Y"]), case["q"][0], case["q"][1])
+        if k in ("poly", "polyxy"):
+            d, xp, yp, i = self.g.proj_polyligne(self.container(case["X"], cont), self.container(case["Y"], cont), qx, qy)
             return {"d": float(d), "p": [float(xp), float(yp)], "i": int(i)}
-        if k == "map":
-            c, d, i = self.m.mapOnTrack(self.E(case["q"][0], case["q"][1], 0), self.track(case["X"], case["Y"]))
-            return {"d": float(d), "p": [float(c.getX()), float(c.getY())], "i": int(i), "z": float(c.getZ())}
+        coords = case.get("coords", "ENU")
+        C = self.C[coords]
+        if k in ("map", "proj"):
+            T = self.track(case["X"], case["Y"], case.get("Z"), coords)
+            pt = C(case["q"][0], case["q"][1], zf(case.get("qz", 0.0)))
+            c, d, i = self.projOnTrack(pt, T) if k == "proj" else self.m.mapOnTrack(pt, T)
+            r = self.row(c, d, i)
+            return {"d": r[0], "p": [r[1], r[2]], "i": r[3], "z": r[4]}
         if k == "mapt":
-            qt = self.track([q[0] for q in case["Q"]], [q[1] for q in case["Q"]])
-            o = self.m.mapOnTrack(qt, self.track(case["X"], case["Y"]))
-            D, Ed = o.getAnalyticalFeature("dist"), o.getAnalyticalFeature("edge")
-            return {"rows": [[float(D[j]), float(o.getX(j)), float(o.getY(j)), int(Ed[j])] for j in range(o.size())],
-                    "n": o.size(), "features": sorted(o.getListAnalyticalFeatures())}
+            QZ = case.get("QZ", [0.0] * len(case["Q"]))
+            qt = self.track([q[0] for q in case["Q"]], [q[1] for q in case["Q"]], QZ, coords)
+            o = self.m.mapOnTrack(qt, self.track(case["X"], case["Y"], case.get("Z"), coords))
+            return {"rows": self.rows_of_track(o), "n": o.size(), "features": sorted(o.getListAnalyticalFeatures())}
+        if k == "seq":
+            T = self.track(case["X"], case["Y"], case["Z"], coords)
+            rows = []
+            for op in case["ops"]:
+                if op[0] == "q":
+                    rows.append(self.row(*self.m.mapOnTrack(C(op[1], op[2], zf(op[3])), T)))
+                elif op[0] == "qt":
+                    qt = self.track([q[0] for q in op[1]], [q[1] for q in op[1]], [q[2] for q in op[1]], coords)
+                    rows += self.rows_of_track(self.m.mapOnTrack(qt, T))
+                elif op[0] == "set":
+                    pos = T.getObs(op[1]).position
+                    pos.setX(op[2]); pos.setY(op[3]); pos.setZ(zf(op[4]))
+                elif op[0] == "shift":
+                    for j in range(T.size()):
+                        pos = T.getObs(j).position
+                        pos.setX(pos.getX() + op[1]); pos.setY(pos.getY() + op[2])
+                elif op[0] == "app":
+                    T.addObs(self.Obs(C(op[1], op[2], zf(op[3]))))
+                elif op[0] == "new":
+                    T = self.track(T.getX(), T.getY(), T.getZ(), coords)
+                else:
+                    raise ValueError(op[0])
+            return {"rows": rows, "n": len(rows)}
         raise ValueError(k)
+
+    def rows_of_track(self, o):
+        D, Ed = o.getAnalyticalFeature("dist"), o.getAnalyticalFeature("edge")
+        return [[float(D[j]), float(o.getX(j)), float(o.getY(j)), int(Ed[j]), float(o.getZ(j))] for j in range(o.size())]
 
     # ------------------------------------------------------------------ model
     def requests(self, case):
         k = case["kind"]
-        fl = lambda L: tok_list(fbits(v) for v in L)
+        fl = lambda L: tok_list(fbits(zf(v)) for v in L)
+        cont = case.get("cont", "list")
+        np_ = "1" if cont in NP_CONT else "0"
         if k == "seg":
-            return ["C20.seg " + " ".join(fbits(v) for v in list(case["s"]) + list(case["q"]))]
-        if k in ("poly", "map"):
-            return ["C20.%s %s %s %s %s" % (k, fl(case["X"]), fl(case["Y"]), fbits(case["q"][0]), fbits(case["q"][1]))]
+            if cont == "list":
+                return ["C20.seg " + " ".join(fbits(v) for v in list(case["s"]) + list(case["q"]))]
+            return ["C20.segg " + np_ + " " + " ".join(fbits(v) for v in list(case["s"]) + list(case["q"]))]
+        if k == "poly" and cont == "list":
+            return ["C20.poly %s %s %s %s" % (fl(case["X"]), fl(case["Y"]), fbits(case["q"][0]), fbits(case["q"][1]))]
+        if k in ("poly", "polyxy"):
+            return ["C20.polyxy %s %s %s %s %s" % (np_, fl(case["X"]), fl(case["Y"]), fbits(case["q"][0]), fbits(case["q"][1]))]
+        if k in ("map", "proj"):
+            if "Z" not in case:
+                return ["C20.map %s %s %s %s" % (fl(case["X"]), fl(case["Y"]), fbits(case["q"][0]), fbits(case["q"][1]))]
+            return ["C20.map3 %s %s %s %s %s %s" % (fl(case["X"]), fl(case["Y"]), fl(case["Z"]), fbits(case["q"][0]), fbits(case["q"][1]),
+                                                    fbits(zf(case.get("qz", 0.0))))]
         if k == "mapt":
-            return ["C20.mapt %s %s %s %s" % (fl(case["X"]), fl(case["Y"]), fl([q[0] for q in case["Q"]]), fl([q[1] for q in case["Q"]]))]
+            Q = case["Q"]
+            if "Z" not in case:
+                return ["C20.mapt %s %s %s %s" % (fl(case["X"]), fl(case["Y"]), fl([q[0] for q in Q]), fl([q[1] for q in Q]))]
+            return ["C20.mapt3 %s %s %s %s %s %s" % (fl(case["X"]), fl(case["Y"]), fl(case["Z"]), fl([q[0] for q in Q]), fl([q[1] for q in Q]),
+                                                     fl(case.get("QZ", [0.0] * len(Q))))]
+        if k == "seq":
+            return ["C20.map3 %s %s %s %s %s %s" % (fl(X), fl(Y), fl(Z), fbits(q[0]), fbits(q[1]), fbits(zf(q[2])))
+                    for (X, Y, Z, q) in self.seq_steps(case)]
 
-    ERR = {"zerodiv": "err:zerodiv", "unbound": "err:UnboundLocalError"}
+    ERR = {"zerodiv": "err:zerodiv", "unbound": "err:UnboundLocalError", "index": "err:index"}
 
     def decode(self, case, replies):
-        r = replies[0].split()
         k = case["kind"]
+        if k == "seq":
+            rows = []
+            for rep in replies:         # the first exception aborts the sequence
+                r = rep.split()
+                if r[0] == "err":
+                    return {"err": self.ERR[r[1]]}
+                if r[0] != "ok":
+                    raise ValueError(rep)
+                rows.append([bitsf(r[4]), bitsf(r[1]), bitsf(r[2]), int(r[5]), bitsf(r[3])])
+            return {"rows": rows, "n": len(rows)}
+        r = replies[0].split()
         if r[0] == "err":
             return {"err": self.ERR[r[1]]}
         if r[0] != "ok":
             raise ValueError(replies[0])
         if k == "seg":
             return {"d": bitsf(r[1]), "p": [bitsf(r[2]), bitsf(r[3])]}
-        if k == "poly":
+        if k in ("poly", "polyxy"):
             return {"d": bitsf(r[1]), "p": [bitsf(r[2]), bitsf(r[3])], "i": int(r[4])}
-        if k == "map":
-            return {"d": bitsf(r[3]), "p": [bitsf(r[1]), bitsf(r[2])], "i": int(r[4]), "z": 0.0}
+        if k in ("map", "proj"):
+            if "Z" not in case:
+                return {"d": bitsf(r[3]), "p": [bitsf(r[1]), bitsf(r[2])], "i": int(r[4]), "z": 0.0}
+            return {"d": bitsf(r[4]), "p": [bitsf(r[1]), bitsf(r[2])], "i": int(r[5]), "z": bitsf(r[3])}
         rows = []
         for item in ([] if len(r) < 2 or r[1] == "_" else r[1].split(";")):
-            xp, yp, d, i = item.split(",")
-            rows.append([bitsf(d), bitsf(xp), bitsf(yp), int(i)])
+            f = item.split(",")
+            if "Z" not in case:
+                rows.append([bitsf(f[2]), bitsf(f[0]), bitsf(f[1]), int(f[3]), 0.0])
+            else:
+                rows.append([bitsf(f[3]), bitsf(f[0]), bitsf(f[1]), int(f[4]), bitsf(f[2])])
         return {"rows": rows, "n": len(rows), "features": ["dist", "edge"]}
 
     def compare(self, case, impl_out, model_out):
@@ -306,21 +684,21 @@ class P(Prop):
         if close(a, model_out, self.rel_tol):
             return None
         # freedom left by the property: a tie (same distance reached on two segments / at two points). The two
-        # answers must then have the same distance and the same standing w.r.t. the oracle (both right, or both
-        # in the same listed defect class); everything else must be equal.
+        # answers must then have the same distance and each must stand w.r.t. the oracle (right, or an instance of a
+        # listed defect class: with `d` equal, which of two tied segments is reported decides whether the listed defect
+        # of one of them shows); everything else (the third coordinate included) must be equal.
         if "err" not in a and "err" not in model_out:
             ra, rm = self.rows_of(case, a), self.rows_of(case, model_out)
             rest_a = {k: v for k, v in a.items() if k not in ("rows", "d", "p", "i")}
             rest_m = {k: v for k, v in model_out.items() if k not in ("rows", "d", "p", "i")}
             if len(ra) == len(rm) and rest_a == rest_m:
-                X, Y = self.poly_of(case)
                 ok = True
-                for (q, d1, x1, y1, i1), (_, d2, x2, y2, i2) in zip(ra, rm):
-                    if close([d1, x1, y1, i1], [d2, x2, y2, i2], self.rel_tol):
+                for (X, Y, q, _, d1, x1, y1, i1, z1), (_, _, _, _, d2, x2, y2, i2, z2) in zip(ra, rm):
+                    if close([d1, x1, y1, i1, z1], [d2, x2, y2, i2, z2], self.rel_tol):
                         continue
                     v1 = self.classify_one(X, Y, q, (d1, x1, y1, i1))
                     v2 = self.classify_one(X, Y, q, (d2, x2, y2, i2))
-                    if not (close(d1, d2, self.rel_tol) and v1 is not None and v1 == v2):
+                    if not (close([d1, z1], [d2, z2], self.rel_tol) and v1 is not None and v2 is not None):
                         ok = False
                 if ok:
                     return None
@@ -328,36 +706,50 @@ class P(Prop):
 
     # ------------------------------------------------------------------ oracle
     def rows_of(self, case, out):
-        """[(query, d, xp, yp, i)] of a non-error output"""
-        k = case["kind"]
-        if k == "mapt":
-            return [(case["Q"][j], r[0], r[1], r[2], r[3]) for j, r in enumerate(out["rows"])]
-        return [(case["q"], out["d"], out["p"][0], out["p"][1], out.get("i", 0))]
+        """[(X, Y, query, flat?, d, xp, yp, i, z)] of a non-error output (z = None when the entry point returns no third coordinate)"""
+        qs = self.queries_of(case)
+        if "rows" in out:
+            return [qs[j] + (r[0], r[1], r[2], r[3], r[4] if len(r) > 4 else None) for j, r in enumerate(out["rows"][:len(qs)])]
+        return [qs[0] + (out["d"], out["p"][0], out["p"][1], out.get("i", 0), out.get("z"))]
 
     def in_domain(self, case):
-        X, Y = self.poly_of(case)
-        return any(not degenerate(s) for s in segments(X, Y))
+        if case["kind"] == "polyxy" and len(case["Y"]) < len(case["X"]):
+            return False        # a Yp shorter than Xp is not a polyline
+        if case["kind"] == "seg":
+            return not degenerate(segments(*self.poly_of(case))[0])
+        # a polyline all of whose segments are shorter than 1e-16 (the threshold under which proj_polyligne skips a
+        # segment as zero-length) is a single point as far as the property is concerned
+        return all(any(abs(float(X[j]) - float(X[j + 1])) + abs(float(Y[j]) - float(Y[j + 1])) >= 1e-16 for j in range(len(X) - 1))
+                   for (X, Y, _, _) in self.queries_of(case))
 
     def spec(self, case, out):
-        X, Y = self.poly_of(case)
+        """The projection is PLANIMETRIC (proj_segment / proj_polyligne take x, y only; mapOnTrack reads getX(), getY()):
+        every clause — point on the carrying segment, distance to the returned point, minimum distance — is checked in
+        the (X, Y) plane, whatever the altitudes of the track and of the query. The third coordinate of the returned
+        point is constrained only when everything is flat (a point of a polyline at altitude 0 has altitude 0)."""
         if not self.in_domain(case):
-            if "err" in out:
-                return None     # zero-length segment / single-point polyline: outside the property's domain
+            if "err" in out or case["kind"] == "polyxy":
+                return None     # zero-length segment / single-point polyline / malformed sequences: outside the property's domain
         if "err" in out:
             return "raised %s" % out["err"]
         k = case["kind"]
-        if k == "mapt":
-            if out["n"] != len(case["Q"]) or len(out["rows"]) != len(case["Q"]):
-                return "mapOnTrack returned %d observations for %d queries" % (out["n"], len(case["Q"]))
-            if out["features"] != ["dist", "edge"]:
-                return "mapOnTrack output carries the features %s" % out["features"]
-        if k == "map" and out.get("z") != 0.0:
-            return "mapOnTrack returned a point with z = %r" % out.get("z")
-        for (q, d, xp, yp, i) in self.rows_of(case, out):
+        qs = self.queries_of(case)
+        if k in ("mapt", "seq"):
+            if out["n"] != len(qs) or len(out["rows"]) != len(qs):
+                return "mapOnTrack returned %d observations for %d queries" % (out["n"], len(qs))
+        if k == "mapt" and out["features"] != ["dist", "edge"]:
+            return "mapOnTrack output carries the features %s" % out["features"]
+        first = None
+        for (X, Y, q, isflat, d, xp, yp, i, z) in self.rows_of(case, out):
+            if z is not None and isflat and z != 0.0:
+                return "query %s: mapOnTrack returned a point with z = %r on a flat track" % (q, z)
             w = check_answer(X, Y, q, d, xp, yp, i)
             if w:
-                return "query %s: %s" % (q, w)
-        return None
+                # several queries may fail: report first one that is not an instance of a listed defect
+                if self.classify_one(X, Y, q, (d, xp, yp, i)) is None:
+                    return "query %s: %s" % (q, w)
+                first = first or "query %s: %s" % (q, w)
+        return first
 
     # ------------------------------------------------------------------ known findings
     def classify_one(self, X, Y, q, row):
@@ -365,18 +757,25 @@ class P(Prop):
         segs = segments(X, Y)
         live = [j for j, s in enumerate(segs) if not (abs(float(X[j]) - float(X[j + 1])) + abs(float(Y[j]) - float(Y[j + 1])) < 1e-16)]
         vert = [j for j in live if is_vertical(segs[j])]
-        hfp = [j for j in live if is_horizontal_fp(X, Y, j)]
+        hfp = [j for j in live if is_horizontal_fp(X, Y, j) or is_near_horizontal_fp(X, Y, j)]
         if row is None:
             return None
         d, xp, yp, i = row
         if check_answer(X, Y, q, d, xp, yp, i) is None:
             return "ok"
+        if any(isinstance(v, float) and (v != v or math.isinf(v)) for v in (d, xp, yp)):
+            # numpy form of D16: `-c / b` with b == 0 yields inf / nan instead of raising
+            return "vertical-segment" if self.zerodiv_vertical(X, Y, q) else None
         if vert and check_answer(X, Y, q, d, xp, yp, i, reduced=vert) is None:
             return "vertical-segment"
         if hfp and check_answer(X, Y, q, d, xp, yp, i, reduced=hfp) is None:
             return "horizontal-segment-fp"
         if vert and hfp and check_answer(X, Y, q, d, xp, yp, i, reduced=vert + hfp) is None:
             return "vertical-segment"
+        tol = TOL * max(scale_of(X, Y, q), abs(d))
+        frag = [j for j in live if is_near_vertical_fp(X, Y, j, tol)]
+        if frag and check_fragile(X, Y, q, d, xp, yp, i, frag, vert + hfp) is None:
+            return "vertical-segment"      # numerically vertical: same flaw (the line is parametrised by its intercept (0, -c / b))
         return None
 
     def zerodiv_vertical(self, X, Y, q):
@@ -391,20 +790,23 @@ class P(Prop):
     def classify(self, case, impl_out, msg):
         if not msg or impl_out is None:
             return None
-        X, Y = self.poly_of(case)
-        queries = case["Q"] if case["kind"] == "mapt" else [case["q"]]
+        if case["kind"] == "polyxy" and len(case["Y"]) < len(case["X"]):
+            return None
+        qs = self.queries_of(case)
         if "err" in impl_out:
-            if impl_out["err"] == "err:zerodiv" and any(self.zerodiv_vertical(X, Y, q) for q in queries):
-                # an earlier query of a mapOnTrack(track) call must not hide a different failure: every query
-                # before the raising one is not observable, so the exception is all there is to classify
+            if impl_out["err"] == "err:zerodiv" and any(self.zerodiv_vertical(X, Y, q) for (X, Y, q, _) in qs):
+                # an earlier query of a mapOnTrack(track) call / of a sequence must not hide a different failure: every
+                # query before the raising one is not observable, so the exception is all there is to classify
                 return "vertical-segment"
             return None
-        if case["kind"] == "mapt" and (impl_out.get("n") != len(queries) or impl_out.get("features") != ["dist", "edge"]):
+        if case["kind"] in ("mapt", "seq") and (impl_out.get("n") != len(qs) or len(impl_out.get("rows", [])) != len(qs)):
             return None
-        if case["kind"] == "map" and impl_out.get("z") != 0.0:
+        if case["kind"] == "mapt" and impl_out.get("features") != ["dist", "edge"]:
             return None
         classes = []
-        for (q, d, xp, yp, i) in self.rows_of(case, impl_out):
+        for (X, Y, q, isflat, d, xp, yp, i, z) in self.rows_of(case, impl_out):
+            if z is not None and isflat and z != 0.0:
+                return None
             c = self.classify_one(X, Y, q, (d, xp, yp, i))
             if c is None:
                 return None
@@ -415,19 +817,66 @@ class P(Prop):
     # ------------------------------------------------------------------ shrinking / search
     def shrink(self, case):
         k = case["kind"]
-        if k == "mapt":
-            for q in case["Q"]:
-                yield {"kind": "map", "X": case["X"], "Y": case["Y"], "q": q}
+        if k == "seq":
+            ops = case["ops"]
+            for j in range(len(ops)):
+                if len(ops) > 1:
+                    yield dict(case, ops=ops[:j] + ops[j + 1:])
+            for j, op in enumerate(ops):
+                if op[0] == "qt":
+                    for q in op[1]:
+                        yield dict(case, ops=ops[:j] + [["q"] + list(q)] + ops[j + 1:])
+            n = len(case["X"])
+            for j in range(n):
+                if n > 2 and not any(op[0] == "set" and op[1] == j for op in ops):
+                    yield dict(case, X=case["X"][:j] + case["X"][j + 1:], Y=case["Y"][:j] + case["Y"][j + 1:], Z=case["Z"][:j] + case["Z"][j + 1:],
+                               ops=[([op[0], op[1] - 1] + op[2:]) if (op[0] == "set" and op[1] > j) else op for op in ops])
+            steps = self.seq_steps(case)
+            if len([op for op in ops if op[0] not in ("q", "qt")]) == 0:
+                for (X, Y, Z, q) in steps:
+                    yield {"kind": "map", "coords": case.get("coords", "ENU"), "X": X, "Y": Y, "Z": Z, "q": q[:2], "qz": q[2]}
             return
-        if k == "map":
-            yield dict(case, kind="poly")
-        if k in ("poly", "map"):
+        if k == "mapt":
+            QZ = case.get("QZ", [0.0] * len(case["Q"]))
+            for j, q in enumerate(case["Q"]):
+                c = {"kind": "map", "X": case["X"], "Y": case["Y"], "q": q}
+                if "Z" in case:
+                    c.update(coords=case.get("coords", "ENU"), Z=case["Z"], qz=QZ[j])
+                yield c
+            return
+        if k == "proj":
+            yield dict(case, kind="map")
+        if k in ("map", "proj"):
+            if "Z" in case:
+                if case.get("coords", "ENU") != "ENU":
+                    yield dict(case, coords="ENU")
+                if not (flat(case["Z"]) and flat([case.get("qz", 0.0)])):
+                    yield {kk: v for kk, v in case.items() if kk not in ("Z", "qz", "alt", "coords")}     # flat
+                    hs = [v for v in list(case["Z"]) + [case.get("qz", 0.0)] if v is not None and v != 0.0]
+                    h = hs[0] if hs else 35.0
+                    same = dict(case, Z=[h] * len(case["X"]), qz=h)       # track and query at one common altitude
+                    if same != case:
+                        yield same
+                else:
+                    yield {kk: v for kk, v in case.items() if kk not in ("Z", "qz", "alt", "coords")}
+            else:
+                yield {"kind": "poly", "X": case["X"], "Y": case["Y"], "q": case["q"]}
+        if k in ("seg", "poly", "polyxy") and case.get("cont", "list") != "list":
+            yield dict(case, cont="list")
+        if k in ("seg", "poly", "polyxy") and case.get("qform", "float") != "float":
+            yield dict(case, qform="float")
+        if k == "polyxy" and len(case["Y"]) >= len(case["X"]):
+            yield dict(case, kind="poly", Y=case["Y"][:len(case["X"])])
+        if k in ("poly", "map", "proj"):
             X, Y = case["X"], case["Y"]
             if len(X) == 2 and k == "poly":
-                yield {"kind": "seg", "s": [X[0], Y[0], X[1], Y[1]], "q": case["q"]}
+                yield {"kind": "seg", "cont": case.get("cont", "list"), "s": [X[0], Y[0], X[1], Y[1]], "q": case["q"]}
             for j in range(len(X)):
                 if len(X) > 2:
-                    yield dict(case, X=X[:j] + X[j + 1:], Y=Y[:j] + Y[j + 1:])
+                    c = dict(case, X=X[:j] + X[j + 1:], Y=Y[:j] + Y[j + 1:])
+                    if "Z" in case:
+                        c["Z"] = case["Z"][:j] + case["Z"][j + 1:]
+                    yield c
         # simpler numbers
         def simpler(v):
             r = float(round(v))
@@ -449,9 +898,23 @@ class P(Prop):
                 yield dict(case, q=qq)
 
     def mutate(self, case, rng):
+        if case["kind"] == "seq":
+            for (X, Y, Z, q) in self.seq_steps(case):
+                yield {"kind": "map", "coords": case.get("coords", "ENU"), "X": X, "Y": Y, "Z": Z, "q": q[:2], "qz": q[2]}
+            return
         if case["kind"] == "mapt":
-            for q in case["Q"]:
-                yield {"kind": "map", "X": case["X"], "Y": case["Y"], "q": q}
+            for c in self.shrink(case):
+                yield c
             return
         for dx, dy in ((0, 0), (1, 0), (-1, 0), (0, 1), (0, -1), (0.5, 0.5), (2, -1)):
             yield dict(case, q=[case["q"][0] + dx, case["q"][1] + dy])
+
+
+# ---- tie to the source by translation (tools/py2lean.py -> lean/TracklibVerif/Gen/Geometry.lean, regenerated on every run)
+P.tie_modules = ["TracklibVerif.Tie.C20"]
+P.theorems = P.theorems + [
+    ("TracklibVerif.Tie.C20", "TV.Tie.C20.tie_cartesienne", "the Lean translation of the CURRENT source of geometry.cartesienne equals the model's cartesienne on every list of >= 4 numbers"),
+    ("TracklibVerif.Tie.C20", "TV.Tie.C20.tie_cartesienne_short", "the translated cartesienne raises IndexError on every shorter list"),
+    ("TracklibVerif.Tie.C20", "TV.Tie.C20.tie_projection_droite", "the translation of the CURRENT source of geometry.projection_droite equals the model's projectionDroite on all arguments, exceptions included"),
+    ("TracklibVerif.Tie.C20", "TV.Tie.C20.tie_proj_segment", "the translation of the CURRENT source of geometry.proj_segment equals the model's projSegment on all arguments, exceptions included"),
+]
